@@ -250,7 +250,7 @@ def rule_token_range_source(prog):
     c = prog.front
     n = 0
     for b in c.bodies:
-        if not c.file_of(b["sp"]).endswith("lexer.rs") or "/tests" in c.file_of(b["sp"]):
+        if not roles.in_lexer_module(c, b) or c.file_of(b["sp"]).endswith("utility.rs"):
             continue
         if b["name"] in ("shift_token", "update", "shift_range"):
             continue
@@ -308,9 +308,8 @@ def rule_keyword_boundary(prog):
     out = Out("KEYWORD-BOUNDARY")
     c = prog.front
     lex = [b for b in c.bodies if b["d"] == "<tokens::Token as lexer::Lexer>::lex"]
-    an0 = prog.body("spl_frontend::lexer::utility::alpha_numeric0")
-    ident = [b for b in c.bodies if b["d"] == "<lexer::Ident as lexer::Lexer>::lex"]
-    if not lex or an0 is None or not ident:
+    ident = [roles.sub_lexers(prog)["Ident"]] if "Ident" in roles.sub_lexers(prog) else []
+    if not lex or not ident:
         out.missing("Token::lex / lexer::utility::alpha_numeric0 / Ident::lex")
         return out
 
@@ -318,9 +317,27 @@ def rule_keyword_boundary(prog):
         return [n["res"]["p"] for n in hir.nodes(node, "Path") if n["res"].get("k") == "Def" and n["res"]["dk"] == "Fn"
                 and n["res"]["p"].startswith("spl_frontend::")]
 
-    cont = [p for p in fn_paths(an0["body"])]
-    uses_an0 = any(p == an0["p"] for p in fn_paths(ident[0]["body"]))
-    out.add("<Ident as Lexer>::lex", "identifier continuation is alpha_numeric0", uses_an0, c.loc(ident[0]["sp"]), "")
+    # the identifier continuation class: the character predicate(s) (fn(char) -> bool of the lexer module) the identifier lexer
+    # repeats over - named directly, or inside the repetition helper it uses (alpha_numeric0)
+    def is_char_pred(p_):
+        pb = prog.body(p_)
+        return pb is not None and "sig_in" in pb and [c.tstr(t_) for t_ in pb["sig_in"]] == ["char"] and c.tstr(pb["sig_out"]) == "bool"
+
+    cont = []
+    for n_ in hir.nodes_deep(prog, ident[0]["body"], 2, crate=c, values=True):
+        if n_.get("k") == "Path" and n_["res"].get("k") == "Def" and n_["res"].get("dk") == "Fn" and is_char_pred(n_["res"]["p"]):
+            # (the class of the first character - alphabetic - is not the continuation: it is the one handed to a repetition)
+            cont.append(n_["res"]["p"])
+    # keep only predicates that are handed to an unbounded repetition (take_while / many0 ..) somewhere below Ident::lex
+    rep = set()
+    for n_ in hir.nodes_deep(prog, ident[0]["body"], 2, crate=c, values=True):
+        if n_.get("k") == "Call" and last(hir.callee(n_) or "") in ("take_while", "take_while1", "many0", "many1", "take_till", "fold_many0") and n_["args"]:
+            for x_ in hir.nodes_deep(prog, n_["args"][0], 1, crate=c, values=True):
+                if x_.get("k") == "Path" and x_["res"].get("k") == "Def" and x_["res"].get("dk") == "Fn" and is_char_pred(x_["res"]["p"]):
+                    rep.add(x_["res"]["p"])
+    cont = sorted(rep) if rep else sorted(set(cont))
+    out.add("<Ident as Lexer>::lex", "identifier continuation is alpha_numeric0", bool(cont), c.loc(ident[0]["sp"]),
+            "continuation class: %s" % cont)
     # the whole-word test: `starts_with(<class>)` calls under the keyword alternatives' look-ahead (`peek`), in the macro
     # expansion or in the helper the alternatives call (sub-lexers `X::lex` are separate alternatives, not descended into)
     n = 0
@@ -336,8 +353,14 @@ def rule_keyword_boundary(prog):
                 if hb is not None and "impl_trait" not in hb and hb["p"] not in seen and hb["p"].startswith("spl_frontend::lexer"):
                     seen.add(hb["p"])
                     yield from boundary_tests(hb["body"], depth - 1, seen)
+            if depth > 0 and x.get("k") == "Path" and x["res"].get("k") == "Def" and x["res"].get("dk") == "Fn":
+                # a lexer function named as a value (an alternative group, the boundary parser handed to `peek`)
+                hb = prog.body(x["res"].get("rp") or x["res"].get("p") or "")
+                if hb is not None and "impl_trait" not in hb and hb["p"] not in seen and hb["p"].startswith("spl_frontend::lexer") and hb["k"] == "fn":
+                    seen.add(hb["p"])
+                    yield from boundary_tests(hb["body"], depth - 1, seen)
 
-    for m in boundary_tests(lex[0]["body"]):
+    for m in boundary_tests(lex[0]["body"], 4):
         n += 1
         arg = hir.strip(m["args"][0]) if m["args"] else {}
         d = hir.path_def(arg)
@@ -379,7 +402,7 @@ def rule_keyword_boundary(prog):
             c.loc(bad_v[1]["sp"]) if bad_v else "", "`c as u8` in `%s`: every character outside Latin-1 gets the value of an unrelated "
             "character (`'€'` = 172)" % (bad_v[0]["d"] if bad_v else ""), ("charvalue",))
     out.add("lexer character classes", "no character is narrowed to a byte before it is classified", bad is None,
-            c.loc(bad["sp"]) if bad else c.loc(an0["sp"]),
+            c.loc(bad["sp"]) if bad else c.loc(ident[0]["sp"]),
             "`c as u8` keeps only the low 8 bits: `Ł` (U+0141) becomes `A`, so non-ASCII letters are accepted inside identifiers and end "
             "keywords differently than the lexical grammar says")
     return out
@@ -453,14 +476,14 @@ def rule_char_escapes(prog):
     """Character literals are printed with exactly the escapes the lexer understands."""
     out = Out("CHAR-ESCAPES")
     c = prog.front
-    lex = [b for b in c.bodies if b["d"] == "<lexer::Char as lexer::Lexer>::lex"]
+    lex = [roles.sub_lexers(prog)["Char"]] if "Char" in roles.sub_lexers(prog) else []
     disp = [b for b in c.bodies if b["d"] == "<tokens::TokenType as std::fmt::Display>::fmt"]
     if not lex or not disp:
         out.missing("Char::lex / Display for TokenType")
         return out
     known = set()
-    for call in hir.nodes(lex[0]["body"], "Call"):
-        if (hir.callee(call) or "").endswith("complete::tag") and call["args"]:
+    for call in hir.nodes_deep(prog, lex[0]["body"], 2, crate=c):
+        if call.get("k") == "Call" and (hir.callee(call) or "").endswith("complete::tag") and call["args"]:
             v = hir.lit_value(call["args"][0])
             if v and v.startswith("\\"):
                 known.add(v)
@@ -598,6 +621,12 @@ def rule_one_per_item(prog):
 def _closure_stop_set(clo):
     """`|c| c == 'x'` (or `'x' == c`, or matches!(c, 'x' | 'y')) -> {'x', ..}; None if not understood"""
     clo = hir.strip(clo)
+    if clo.get("k") == "Path" and _PROG_U.get("prog") is not None:
+        # a named predicate `fn is_line_break(c: char) -> bool { c == '\n' || c == '\r' }`
+        d_ = hir.path_def(clo)
+        fb_ = _PROG_U["prog"].body((d_ or {}).get("rp") or (d_ or {}).get("p") or "")
+        if fb_ is not None and len(fb_["params"]) == 1 and not hir.strip(fb_["body"]).get("k") == "BlockExpr":
+            clo = {"k": "Closure", "params": fb_["params"], "body": fb_["body"]}
     if clo.get("k") != "Closure" or len(clo.get("params") or []) != 1:
         return None
     body = hir.strip(clo["body"])
@@ -635,7 +664,10 @@ def _body_class(e):
     return None
 
 
-def _closer_set(e):
+_PROG_U = {}
+
+
+def _closer_set(e, _depth=0):
     """set of terminators a closing combinator accepts ("EOF" for end of input), or None"""
     e = hir.strip(e)
     d = hir.path_def(e) if e.get("k") == "Path" else None
@@ -647,6 +679,12 @@ def _closer_set(e):
             return {"\n", "\r\n"}
         if p.endswith("character::complete::newline"):
             return {"\n"}
+        # a named parser of the lexer module whose whole body is one closing combinator applied to its input (`fn line_end`)
+        fb_ = _PROG_U["prog"].body(d.get("rp") or p) if _PROG_U.get("prog") is not None and p.startswith("spl_frontend::lexer") else None
+        if fb_ is not None and _depth < 2:
+            hb_ = hir.strip(fb_["body"])
+            if hb_.get("k") == "Call" and hir.strip(hb_["f"]).get("k") == "Call" and len(hb_["args"]) == 1:
+                return _closer_set(hb_["f"], _depth + 1)
         return None
     if e.get("k") == "Call":
         cal = hir.callee(e) or ""
@@ -684,14 +722,31 @@ def rule_comment_lex(prog):
     if lex is None:
         out.missing("the Lexer impl that builds TokenType::Comment")
         return out
+    _PROG_U["prog"] = prog
     delim = [n for n in hir.nodes_deep(prog, lex["body"], 1, crate=c) if n.get("k") == "Call" and (hir.callee(n) or "").endswith("sequence::delimited")]
     item = "<Comment as Lexer>::lex"
-    if len(delim) != 1 or len(delim[0]["args"]) != 3:
-        # another construction (preceded/terminated/hand-written): not understood, nothing is claimed about it
-        out.add(item, "comment text runs to the end of the line", None, c.loc(lex["sp"]), "comment lexer is not delimited(open, body, close)")
-        return out
-    op, body, close = delim[0]["args"]
-    loc = c.loc(delim[0]["sp"])
+    if len(delim) == 1 and len(delim[0]["args"]) == 3:
+        op, body, close = delim[0]["args"]
+        loc = c.loc(delim[0]["sp"])
+    else:
+        # the same three parts run one after the other: `let (input, _) = open(input)?; let (input, text) = body(input)?;
+        # let (input, _) = close(input)?;` - the parsers applied to the running input, in statement order
+        blk_ = hir.strip(lex["body"])
+        steps = []
+        for st_ in (blk_["b"]["stmts"] if blk_.get("k") == "BlockExpr" else []):
+            if st_.get("k") != "Let" or st_.get("init") is None:
+                continue
+            iv = hir.strip(st_["init"])
+            if iv.get("k") == "Try":
+                iv = hir.strip(iv["e"])
+            if iv.get("k") == "Call" and len(iv["args"]) == 1 and "LocatedSpan" in c.tstr(hir.strip(iv["args"][0])["t"]):
+                steps.append((iv["f"], st_))
+        if len(steps) != 3:
+            # another construction (preceded/terminated/hand-written): not understood, nothing is claimed about it
+            out.add(item, "comment text runs to the end of the line", None, c.loc(lex["sp"]), "comment lexer is not delimited(open, body, close)")
+            return out
+        op, body, close = [x_[0] for x_ in steps]
+        loc = c.loc(steps[0][1]["sp"])
     opener = _closer_set(op)
     out.add(item, "a comment starts with `//`", (opener == {"//"}) if opener is not None else None, loc, "opener accepts %s" % opener)
     bc = _body_class(body)
@@ -745,7 +800,10 @@ def rule_lex_munch(prog):
     that was put together (format!, `+`), because `Display for TokenType` re-creates the lexeme from kind and payload."""
     out = Out("LEX-MUNCH")
     c = prog.front
-    lexers = [b for b in c.bodies if b["name"] == "lex" and "impl_trait" in b and c.file_of(b["sp"]).endswith("lexer.rs")]
+    lexers = [b for b in c.bodies if b["name"] == "lex" and "impl_trait" in b and roles.in_lexer_module(c, b)]
+    for nm_, fb_ in sorted(roles.sub_lexers(prog).items()):
+        if fb_ not in lexers:
+            lexers.append(fb_)
     if len(lexers) < 6:
         out.missing("Lexer impls in lexer.rs (found %d)" % len(lexers))
         return out
